@@ -18,7 +18,7 @@ func c12(r *hx.Run) {
 	fx.Quiet()
 	protoClient, v := stdClient()
 	delta := v.P.MaxOperationTimeDelta
-	r.Rule = "intake: every pairing (revealed key k_i, next commitment = commitment of k_j under SHA2-256 or SHA2-512, reveal value under either algorithm) for update and recover, and every pairing (update commitment, recovery commitment) for create and recover, for all five key types, parsed by the real parser: accepted iff the next commitment is not the commitment of the revealed key / the two commitments differ; the same pairings through the client request builders (update, recover, create): a forbidden pairing is not built (or at least never both built and accepted), a permitted one is built. Resolution: every history made of a forward commitment chain of length <=4 (update chain and recovery chain) plus 1 or 2 commitment-closing operations (self loops and cycles of length 2..4; closing recovers also without their delta member) anchored at every position, with and without the legitimate continuation, on the real processor vs ref/sidetree (which never revisits a commitment). Non-trivial: pairings with i=j, histories where a closing operation is a candidate for the commitment in force."
+	r.Rule = "intake: every pairing (revealed key k_i, next commitment = commitment of k_j under SHA2-256 or SHA2-512, reveal value under either algorithm) for update and recover, and every pairing (update commitment, recovery commitment) for create and recover, for all five key types (also with two different nonces in the revealed and in the committed key, on one parser instance), parsed by the real parser: accepted iff the next commitment is not the commitment of the revealed key / the two commitments differ; the same pairings through the client request builders (update, recover, create): a forbidden pairing is not built (or at least never both built and accepted), a permitted one is built. Resolution: every history made of a forward commitment chain of length <=4 (update chain and recovery chain) plus 1 or 2 commitment-closing operations (self loops and cycles of length 2..4; closing recovers also without their delta member) anchored at every position, with and without the legitimate continuation, on the real processor vs ref/sidetree (which never revisits a commitment). Non-trivial: pairings with i=j, histories where a closing operation is a candidate for the commitment in force."
 	// ---------- intake
 	for _, kt := range fx.KeyTypes {
 		keys := []*fx.Key{fx.NewKey(kt, "c12/k0"), fx.NewKey(kt, "c12/k1"), fx.NewKey(kt, "c12/k2")}
@@ -55,6 +55,43 @@ func c12(r *hx.Run) {
 									fmt.Sprintf("%s (%s) revealing key %d with next commitment of key %d (reveal alg %d, commitment alg %d): accepted=%v err=%v", typ, kt, i, j, rc, nc, err == nil, err), nil)
 							}
 							r.Sample(caseID)
+						}
+					}
+				}
+			}
+		}
+		// the same with nonces in the signing keys (one parser instance sees one key under several nonces): the revealed key is the
+		// pair (key material, nonce); re-committing to it is forbidden, committing to the same material under another nonce is not
+		n1, n2 := fx.B64([]byte("nonce-1-16-bytes")), fx.B64([]byte("nonce-2-16-bytes"))
+		for _, typ := range []string{"update", "recover"} {
+			for i := range keys[:2] {
+				for j := range keys[:2] {
+					for ai, na := range []string{n1, n2} {
+						for bi, nb := range []string{n1, n2} {
+							caseID := fmt.Sprintf("intake-nonce|%s|%s|i=%d|j=%d|a=%d|b=%d", kt, typ, i, j, ai, bi)
+							if !r.Want(caseID) {
+								continue
+							}
+							next := fx.CommitN(keys[j], fx.SHA256, nb)
+							s := &fx.OpSpec{Type: typ, Suffix: "EiSuffix", SignKey: keys[i], Nonce: na, Code: fx.SHA256, Patches: patches}
+							if typ == "update" {
+								s.NextUpdate = next
+							} else {
+								s.NextRecov, s.NextUpdate = next, fx.Commit(fx.NewKey(kt, "c12/other"), fx.SHA256)
+							}
+							_, err := v.Parser.Parse("did:sidetree", s.Build())
+							r.Eval()
+							r.State()
+							r.Trans(1)
+							same := i == j && ai == bi
+							if same {
+								r.Nontrivial(caseID)
+							}
+							r.Outcome(fmt.Sprintf("intake %s with nonce same-key=%v accepted=%v", typ, same, err == nil))
+							if (err == nil) != !same {
+								r.Violation(fmt.Sprintf("intake-recommit:nonce:%s:samekey=%v", typ, same), caseID,
+									fmt.Sprintf("%s (%s) revealing key %d / nonce %d with next commitment of key %d / nonce %d: accepted=%v err=%v", typ, kt, i, ai, j, bi, err == nil, err), nil)
+							}
 						}
 					}
 				}
